@@ -490,16 +490,24 @@ def Response.rawStatus (resp : Response) : Nat :=
     else if resp.status != 0 then resp.status else 200
   else 500
 
+theorem serveResponse_eq (resp : Response) :
+    serveResponse resp =
+      if resp.doc.marshalable then
+        if resp.rawStatus < 100 || resp.rawStatus > 999 then .panic
+        else .wrote resp.rawStatus contentType resp.headers { resp.doc with jsonapi := some jsonApiVersion }
+      else .wrote 500 contentType [] { errors := [errorForHTTPStatus 500], jsonapi := some jsonApiVersion } := by
+  unfold serveResponse Response.rawStatus
+  simp only [Doc.marshalable]
+  split <;> simp_all
+
 theorem serveHTTP_eq (s : Schema) (r : Req) :
     serveHTTP s r =
       if (executeRequest s r).doc.marshalable then
         if (executeRequest s r).rawStatus < 100 || (executeRequest s r).rawStatus > 999 then .panic
         else .wrote (executeRequest s r).rawStatus contentType (executeRequest s r).headers
           { (executeRequest s r).doc with jsonapi := some jsonApiVersion }
-      else .wrote 500 contentType [] { errors := [errorForHTTPStatus 500], jsonapi := some jsonApiVersion } := by
-  unfold serveHTTP Response.rawStatus
-  simp only [Doc.marshalable]
-  split <;> simp_all
+      else .wrote 500 contentType [] { errors := [errorForHTTPStatus 500], jsonapi := some jsonApiVersion } :=
+  serveResponse_eq _
 
 theorem statusOfErrors_single (e : Err) : statusOfErrors [e] = errStatus e := by
   unfold statusOfErrors errStatus
